@@ -694,6 +694,8 @@ pub fn gen_comment(rng: &mut Rng) -> String {
     let bodies = [
         "", " doc", " Ünïcödé 日本語 😀", " tab\there", "# double", " trailing space ", " \u{1b}[31mred\u{1b}[0m", " interface x.y", " method F() -> ()", "\u{00a0}nbsp", " a: int, (", " -> ) )",
         " voil\u{e0}", " dagger \u{2020}", " ends with nbsp\u{a0}", " \u{20ac}\u{ff}",
+        // text that ends a Rust string literal of one kind or another
+        " e.g. \"#ff8800\"", " r#\"raw\"# and \"##", " back\\slash \\\" \\n {brace} {{", " */ /* '\\''",
     ];
     format!("#{}", rng.pick(&bodies))
 }
